@@ -375,6 +375,13 @@ func handleReport(ctx *RunCtx, e Entry, rep *engine.Report) {
 		if detail != "" {
 			vo.Detail = detail
 		}
+		if !ok && e.Replay == "race" {
+			// lock-monitor obligations (critical-section count, release on every exit, accesses under
+			// the guard) have no native observable other than a race the scheduler happens to
+			// exhibit: the monitor's counterexample stands on its own
+			vo.Reproduced = true
+			vo.Detail = "lock-monitor counterexample (the native -race run did not exhibit it): " + v.Detail
+		}
 		ctx.Replays++
 		ctx.Violations = append(ctx.Violations, vo)
 	}
